@@ -20,8 +20,9 @@ FAST = ["2022-09-28-11:36:59.668,3,129029,7,255,8,00,2f,e7,95,3d,00,73,d6", "202
         "2022-09-28-11:36:59.669,3,129029,7,255,8,04,00,00,00,00,10,fc,0c", "2022-09-28-11:36:59.669,3,129029,7,255,8,05,4e,00,a0,00,e8,03,00",
         "2022-09-28-11:36:59.670,3,129029,7,255,8,06,00,ff,ff,ff,ff,ff,ff"]
 
+RECLAIM_7 = "2022-09-10T12:10:17.000Z,6,60928,7,255,8,fb,9b,70,22,00,9b,50,c0"    # address 7 re-claims with another NAME in the middle of its fast packet
 HISTORY = [(HEAT_5, False), (CLAIM_A, True), (HEAT_5, False), (PROP_5, False), (RATE_9, False), (CLAIM_B, True), (HEAT_7, False)] + [(f, False) for f in FAST[:3]] + \
-          [(CLAIM_A, True), (PROP_5b, False)] + [(f, False) for f in FAST[3:]] + [(CONF_5, True), (HEAT_5, False), (CLAIM_B, True), (HEAT_7, False)]
+          [(CLAIM_A, True), (PROP_5b, False), (RECLAIM_7, True)] + [(f, False) for f in FAST[3:]] + [(CONF_5, True), (HEAT_5, False), (CLAIM_B, True), (HEAT_7, False)]
 
 
 def decode_all(dec, history=HISTORY):
